@@ -23,6 +23,7 @@ func runC19(c *Check) {
 	c.settingsMisc()
 	c.boolShortening()
 	c.c19H()
+	c.savedConfigFromCurrent()
 }
 
 // ---- R1
